@@ -57,7 +57,7 @@ def C12_existingLabels (m : Msg) : Bytes :=
 (all occurrences, each unfolded and RFC 2047-decoded; since /repo 71eba6c with every `\n` / `\r` of a decoded value
 turned into a space, `Model.labelSafe`), joined by one space, one space, and the interpolation `v` of the configured
 string - the existing text is appended to, never interpolated; the whole is cut at its first NUL.  That the value is
-safe to write back is `C08_label_value_safe` / `C08_label_rewrite_preserves`. -/
+safe to write back is `C08_label_rewrite_preserves` (`message_set_header` itself replaces line breaks since /repo 4ac7c48: `Model.setHeader`). -/
 theorem C12_label_value (macros : Option (List (Bytes × Bytes))) (ml : MatchList) (i : Nat) (mh : Match)
     (msgs : Nat → Msg) (hty : mh.ty = .label) (s v : Bytes) (hs : mh.strings = [s])
     (hv : interpolate (ml.take i) macros s = some v) :
